@@ -190,6 +190,7 @@ func runC15(p *core.Prog, r *core.Result) {
 		"R15.5 every value the decoder can push or return is non-nil (constructors, conversions, previously pushed values, or the unpickler's result, whose in-module implementations never return nil without an error)",
 		"R15.9 a record whose stamp decodes to a well-formed but smaller or different value is not silently up to date: diffEnv reports 'unchanged' only on whole-value equality of the recorded and the current environment (shared with C01 R1.13)",
 		"R15.10 decoded values are only handed to traversals that are depth-bounded or cycle-safe (EqualDepth, DiffDepth, String): no function of the module calls this Starlark fork's json.encode - which recurses without a depth limit or cycle detection - on a value that can hold decoded data; a byte string can make the decoder build a list that contains itself, and the recursion ends in the runtime's unrecoverable stack-overflow abort",
+		"R15.11 a record that does not decode fails the load, every time: the persisted stamp (targetInfo.Data) is decoded only in code that runs while the project loads (function.load), never lazily from the up-to-date check or the evaluation - there the first failure would be reported once and later checks of the same target on the same Project would go on with the nil value the failed decode left behind (a nil dereference on a runner goroutine)",
 		"R15.7 record consumers outside the recover scope (load/upToDate/diffEnv of functions and sources) contain no unguarded len(x)-k / constant index on decoded data, no unchecked type assertion, and no reachable explicit panic other than the frozen internal-invariant one",
 	}
 	r.NotDecided = []string{"memory exhaustion from declared lengths (excluded by the property)", "stack depth of starlark Hash/Equal on deeply nested decoded data", "panics inside go.starlark.net (trusted)", "32-bit platforms: int(uint32) lengths >= 2^31 (needs > 2 GiB of input; outside the property's bound)"}
@@ -317,6 +318,9 @@ func runC15(p *core.Prog, r *core.Result) {
 
 	// ---- R15.7 record consumers
 	checkRecordConsumers(p, r)
+
+	// ---- R15.11 persisted stamps are decoded at load time only
+	checkPersistedDecodedAtLoad(p, r, "R15.11")
 
 	// ---- R15.10 no unbounded traversal of decoded values
 	checkUnboundedTraversals(p, r, "R15.10")
@@ -881,6 +885,62 @@ func checkRecordConsumers(p *core.Prog, r *core.Result) {
 		})
 	}
 	r.Floor("R15.7", nSites, 2, "crash-source sites on the record-loading path")
+}
+
+// checkPersistedDecodedAtLoad implements R15.11.
+func checkPersistedDecodedAtLoad(p *core.Prog, r *core.Result, rule string) {
+	// what runs when targets are checked and evaluated
+	var roots []*ssa.Function
+	for _, meth := range []string{"upToDate", "evaluate", "info", "dependencies"} {
+		roots = append(roots, targetImpls(p, meth)...)
+	}
+	if ev := p.Func("", "runTarget", "Evaluate"); ev != nil {
+		roots = append(roots, ev)
+	}
+	runtimeFns := staticClosure(p, roots...)
+	n := 0
+	for _, fn := range p.ModuleFuncs() {
+		top := fn
+		for top.Parent() != nil {
+			top = top.Parent()
+		}
+		if top.Pkg == nil || top.Pkg.Pkg.Path() != pkgRoot {
+			continue
+		}
+		k := 0
+		for _, c := range core.Calls(fn) {
+			if !core.IsMethod(c, pkgPickle, "Decoder", "Decode") {
+				continue
+			}
+			var isPersisted func(v ssa.Value, depth int) bool
+			isPersisted = func(v ssa.Value, depth int) bool {
+				return core.DependsOn(v, core.SliceOpts{Stores: true, ThroughCall: func(*ssa.Call) bool { return true }}, func(x ssa.Value) bool {
+					if core.LoadOfField(x, pkgRoot, "targetInfo", "Data") || core.LoadOfField(x, pkgRoot, "targetInfo", "Stamp") {
+						return true
+					}
+					// a decoding helper that is handed the stamp (decodeEnvData(info.Data))
+					if prm, ok := x.(*ssa.Parameter); ok && depth < 2 {
+						i := paramIndex(prm.Parent(), prm)
+						for _, site := range p.StaticCallers(prm.Parent()) {
+							if i >= 0 && i < len(site.Common().Args) && isPersisted(site.Common().Args[i], depth+1) {
+								return true
+							}
+						}
+					}
+					return false
+				})
+			}
+			persisted := isPersisted(c.Common().Args[0], 0)
+			if !persisted {
+				continue
+			}
+			n++
+			k++
+			lazy := runtimeFns[fn] || runtimeFns[top]
+			r.Check(!lazy, rule, fmt.Sprintf("%s#decodes-persisted-stamp-%d", fname(fn), k), p.InstrPos(c.(ssa.Instruction)), "the persisted stamp is decoded while the project loads: a failure fails the load", "the persisted stamp is decoded from the up-to-date check / evaluation of a target: a record that does not decode is reported by the first check only, and what the failed decode left behind is used by the next one")
+		}
+	}
+	r.Floor(rule, n, 1, "decodes of a persisted stamp")
 }
 
 // checkUnboundedTraversals implements R15.10.
